@@ -1912,6 +1912,14 @@ fn gen_c14(r: &mut Rng, seed: u64) -> Scenario {
     tags.push(format!("id{}", match &spec.build_id { None => "none".to_string(), Some(i) => i.len().to_string() }));
     tags.push(format!("so{}", spec.soname.is_some() as u8));
     tags.push(format!("sec{}", spec.sections as u8));
+    // a build-id note stamped on afterwards (objcopy --add-section): no PT_NOTE, and the section's name
+    // is the last string of the section name table
+    if spec.build_id.is_some() && spec.sections && !spec.sections_at_end && r.chance(1, 6) {
+        spec.note_in_phdr = false;
+        spec.note_name_last = true;
+        tags.retain(|t| t != "note-in-segment");
+        tags.push("note-name-last".into());
+    }
     // processed by a post-link tool: note and string table in an appended segment whose virtual
     // address differs from its file offset
     if !non_pie && !spec.sections_at_end && r.chance(1, 5) {
@@ -2093,7 +2101,7 @@ fn gen_c08(r: &mut Rng, seed: u64) -> Scenario {
     }
     // a library whose section table is not mapped and whose note is only in a section
     if r.chance(1, 3) {
-        let spec = crate::elfgen::ElfSpec { build_id: Some(r.bytes(20)), note_in_phdr: false, soname: Some("libfileonly.so.2".into()), sections: true, text_pages: 1, text_seed: r.next(), dt_debug: false, dyn_pad: 0, with_pt_phdr: false, sections_at_end: true, rodata_before_text: false, data_gap_pages: 0, link_base: 0, text_sec_skip: 0, moved_tables: false, force_dyn: false };
+        let spec = crate::elfgen::ElfSpec { build_id: Some(r.bytes(20)), note_in_phdr: false, soname: Some("libfileonly.so.2".into()), sections: true, text_pages: 1, text_seed: r.next(), dt_debug: false, dyn_pad: 0, with_pt_phdr: false, sections_at_end: true, rodata_before_text: false, data_gap_pages: 0, link_base: 0, text_sec_skip: 0, moved_tables: false, force_dyn: false, note_name_last: false };
         let img = crate::elfgen::build(&spec);
         let base = LIB_BASE + 0x5000_0000;
         let path = "/usr/lib/libfileonly.so.2.0";
@@ -2110,7 +2118,7 @@ fn gen_c08(r: &mut Rng, seed: u64) -> Scenario {
     }
     // a library embedded in an archive: executable mapping from a non-zero file offset
     if r.chance(1, 3) {
-        let spec = crate::elfgen::ElfSpec { build_id: Some(r.bytes(20)), note_in_phdr: true, soname: Some("libembedded.so".into()), sections: r.coin(), text_pages: 1, text_seed: r.next(), dt_debug: false, dyn_pad: 0, with_pt_phdr: false, sections_at_end: false, rodata_before_text: false, data_gap_pages: 0, link_base: 0, text_sec_skip: 0, moved_tables: false, force_dyn: false };
+        let spec = crate::elfgen::ElfSpec { build_id: Some(r.bytes(20)), note_in_phdr: true, soname: Some("libembedded.so".into()), sections: r.coin(), text_pages: 1, text_seed: r.next(), dt_debug: false, dyn_pad: 0, with_pt_phdr: false, sections_at_end: false, rodata_before_text: false, data_gap_pages: 0, link_base: 0, text_sec_skip: 0, moved_tables: false, force_dyn: false, note_name_last: false };
         let img = crate::elfgen::build(&spec);
         let base = LIB_BASE + 0x6000_0000;
         let path = "/data/app/base.apk";
@@ -2126,7 +2134,7 @@ fn gen_c08(r: &mut Rng, seed: u64) -> Scenario {
     // a statically linked, non-position-independent program image: every virtual address in it is
     // absolute (link base 0x400000) and differs from the file offset
     if r.chance(1, 3) {
-        let spec = crate::elfgen::ElfSpec { build_id: Some(r.bytes(20)), note_in_phdr: true, soname: None, sections: r.coin(), text_pages: 1, text_seed: r.next(), dt_debug: false, dyn_pad: 0, with_pt_phdr: true, sections_at_end: false, rodata_before_text: false, data_gap_pages: 0, link_base: 0x40_0000, text_sec_skip: 0, moved_tables: false, force_dyn: r.coin() };
+        let spec = crate::elfgen::ElfSpec { build_id: Some(r.bytes(20)), note_in_phdr: true, soname: None, sections: r.coin(), text_pages: 1, text_seed: r.next(), dt_debug: false, dyn_pad: 0, with_pt_phdr: true, sections_at_end: false, rodata_before_text: false, data_gap_pages: 0, link_base: 0x40_0000, text_sec_skip: 0, moved_tables: false, force_dyn: r.coin(), note_name_last: false };
         let img = crate::elfgen::build(&spec);
         let base = 0x40_0000u64;
         let path = "/opt/tools/static-helper";
@@ -2149,7 +2157,7 @@ fn gen_c08(r: &mut Rng, seed: u64) -> Scenario {
         push_tags(&mut tags, &["non-elf"]);
     }
     if r.chance(1, 4) {
-        let spec = crate::elfgen::ElfSpec { build_id: Some(vec![0u8; 20]), note_in_phdr: true, soname: None, sections: true, text_pages: 1, text_seed: 5, dt_debug: false, dyn_pad: 0, with_pt_phdr: false, sections_at_end: false, rodata_before_text: false, data_gap_pages: 0, link_base: 0, text_sec_skip: 0, moved_tables: false, force_dyn: false };
+        let spec = crate::elfgen::ElfSpec { build_id: Some(vec![0u8; 20]), note_in_phdr: true, soname: None, sections: true, text_pages: 1, text_seed: 5, dt_debug: false, dyn_pad: 0, with_pt_phdr: false, sections_at_end: false, rodata_before_text: false, data_gap_pages: 0, link_base: 0, text_sec_skip: 0, moved_tables: false, force_dyn: false, note_name_last: false };
         let img = crate::elfgen::build(&spec);
         let base = LIB_BASE + 0x7000_0000;
         let path = "/usr/lib/libzeroid.so";
